@@ -16,7 +16,7 @@ RULE = ('case = one call of first_order_match: every call made while replaying r
         'distinct = hash of (pattern, target, input inst) shadows; non-trivial = pattern size >= 3 containing a schematic variable')
 ASSUMPTIONS = ['reference substitution / beta / eta in vf/shadow.py decide equality modulo beta-eta',
                'completeness is only demanded for first-order patterns whose target was constructed as an instance']
-REQUIRED = {'quick': {'calls_observed': 20000, 'successes_judged': 6000, 'gen_pairs': 3000, 'gen_first_order_instances': 600,
+REQUIRED = {'quick': {'miller_mixed_cases': 400, 'calls_observed': 20000, 'successes_judged': 6000, 'gen_pairs': 3000, 'gen_first_order_instances': 600,
                       'lib_calls_observed': 5000},
             'thorough': {'calls_observed': 400000, 'successes_judged': 100000, 'gen_pairs': 60000,
                          'gen_first_order_instances': 12000, 'lib_calls_observed': 200000}}
@@ -364,6 +364,60 @@ def run_gen(ctx, spec):
         # heuristic-branch hostile variants: non-pattern applications
         if rng.random() < 0.25:
             hostile(ctx, rng, matcher)
+        if rng.random() < 0.3:
+            miller_mixed(ctx, rng, matcher)
+
+
+def miller_mixed(ctx, rng, matcher):
+    """a schematic head applied to a MIX of bound variables and schematic variables that are already instantiated
+    (pre-seeded, or matched earlier in the same pattern), under two or three binders, with as many arguments as
+    binders or fewer; the target may mention a bound variable that is not among the arguments (then there is no
+    instance, and success with any instantiation is judged by the ordinary success oracle)"""
+    from kernel.term import Inst
+    a, B = rng.choice([('tv', 'a'), S.BOOL]), S.BOOL
+    n = rng.choice([2, 2, 3])
+    names = ['x', 'y', 'z'][:n]
+    incl = sorted(rng.sample(range(n), rng.randint(1, n - 1)))           # bound variables (de Bruijn indices) passed to ?P
+    k_sv = rng.choice([1, 1, 2]) if len(incl) < n else 1
+    svs = [('svar', 'a%d' % i, a) for i in range(k_sv)]
+    consts = [('var', 'c%d' % i, a) for i in range(k_sv)]
+    args = [('bound', i) for i in incl] + svs
+    rng.shuffle(args)
+    PT = S.funs(*([a] * len(args) + [B]))
+    pat_body = S.mk_comb(('svar', 'P', PT), *args)
+    uses_omitted = rng.random() < 0.6
+    omitted = [i for i in range(n) if i not in incl]
+    t_args = [('bound', i) for i in incl] + list(consts) + ([('bound', rng.choice(omitted))] if uses_omitted else [])
+    rng.shuffle(t_args)
+    ST = S.funs(*([a] * len(t_args) + [B]))
+    tgt_body = S.mk_comb(('var', 'S', ST), *t_args)
+
+    def close(body):
+        for nm in reversed(names):
+            body = ('comb', ('const', 'all', S.fun(S.fun(a, B), B)), ('abs', nm, a, body))
+        return body
+    pat, tgt = close(pat_body), close(tgt_body)
+    inst_in = None
+    how = rng.choice(['pre-seeded', 'matched-earlier'])
+    if how == 'pre-seeded':
+        inst_in = Inst()
+        for sv, c in zip(svs, consts):
+            inst_in[sv[1]] = S.to_repo_term(c)
+    else:
+        Tv = ('var', 'T', S.funs(*([a] * k_sv + [B])))
+        IMP = ('const', 'implies', S.funs(B, B, B))
+        pat = S.mk_comb(IMP, S.mk_comb(Tv, *svs), pat)
+        tgt = S.mk_comb(IMP, S.mk_comb(Tv, *consts), tgt)
+    ctx.count('miller_mixed_cases')
+    ctx.count('miller_mixed:%s:%s' % (how, 'target-uses-omitted-bound-variable' if uses_omitted else 'instance-exists'))
+    try:
+        matcher.first_order_match(S.to_repo_term(pat), S.to_repo_term(tgt), inst_in)
+        ctx.count('miller_mixed_matched')
+    except matcher.MatchException:
+        ctx.count('miller_mixed_no_match')
+    except Exception as e:
+        ctx.count('miller_mixed_raised:' + type(e).__name__)
+    ctx.case(('miller-mixed', pat, tgt, how), nontrivial=True)
 
 
 def hostile(ctx, rng, matcher):
